@@ -4,6 +4,7 @@ package alt
 
 import (
 	"fmt"
+	"math"
 	"reflect"
 	"time"
 	"unsafe"
@@ -67,8 +68,7 @@ func Match(fingerprint, target any) bool {
 			return false
 		}
 	case int, int8, int16, int32, int64, uint, uint8, uint16, uint32, uint64:
-		i0, _ := asInt(fp)
-		if i1, ok := asInt(target); !ok || i0 != i1 {
+		if !sameAsInt(fp, target) {
 			return false
 		}
 	case float32, float64:
@@ -135,8 +135,7 @@ func diff(v0, v1 any, one bool, ignores ...Path) (diffs []Path) {
 			diffs = append(diffs, Path{nil})
 		}
 	case int, int8, int16, int32, int64, uint, uint8, uint16, uint32, uint64:
-		i0, _ := asInt(v0)
-		if i1, ok := asInt(v1); !ok || i0 != i1 {
+		if !sameAsInt(v0, v1) {
 			diffs = append(diffs, Path{nil})
 		}
 	case float32, float64:
@@ -316,6 +315,29 @@ func asInt(v any) (i int64, ok bool) {
 		ok = false
 	}
 	return
+}
+
+// sameAsInt compares an integer with another number. An unsigned value that
+// does not fit into an int64 is only the same as that same unsigned value.
+func sameAsInt(i, v any) bool {
+	u0, big0 := beyondInt64(i)
+	u1, big1 := beyondInt64(v)
+	if big0 || big1 {
+		return big0 && big1 && u0 == u1
+	}
+	i0, _ := asInt(i)
+	i1, ok := asInt(v)
+	return ok && i0 == i1
+}
+
+func beyondInt64(v any) (uint64, bool) {
+	switch tv := v.(type) {
+	case uint64:
+		return tv, math.MaxInt64 < tv
+	case uint:
+		return uint64(tv), math.MaxInt64 < uint64(tv)
+	}
+	return 0, false
 }
 
 // sameAsFloat compares a float with another number. An integer is compared as
